@@ -406,6 +406,10 @@ pub enum Outcome {
     Done(Obs, Terminal),
     /// a premature advance attempt (correctly) ended the history
     Premature(&'static str),
+    /// a followed flow whose request went out without the `Expect` header of the previous request: which request-specific
+    /// headers other than the listed ones travel with a redirect is not stated (DESIGN 5.3), and the rest of this exchange
+    /// was specified for a request with the header - nothing further is compared
+    FollowedWithoutInheritedExpect,
 }
 
 fn v(s: impl Into<String>) -> String {
@@ -417,6 +421,7 @@ fn v(s: impl Into<String>) -> String {
 /// connection close (needed for close-delimited bodies).
 pub fn run_exchange(spec: &ExchangeSpec, start: Option<Flow<(), Prepare>>, stream: &[u8], s: &mut Sched) -> Result<Outcome, String> {
     let mut path: Vec<&'static str> = vec!["Prepare"];
+    let followed = start.is_some();
     let mut f = match start {
         Some(f) => f,
         None => Flow::new(spec.request()?).map_err(|e| format!("Flow::new: {:?}", e))?,
@@ -521,6 +526,15 @@ pub fn run_exchange(spec: &ExchangeSpec, start: Option<Flow<(), Prepare>>, strea
         }
     }
     let next = sr.proceed().map_err(|e| format!("SendRequest::proceed: {:?}", e))?.ok_or("SendRequest::proceed returned None although can_proceed() was true")?;
+    if followed && spec.expect {
+        let on_wire = crate::model::head::parse_request_head(&req_head).map(|h| h.values("expect").iter().any(|x| x.eq_ignore_ascii_case(b"100-continue"))).unwrap_or(true);
+        if !on_wire {
+            if matches!(next, SendRequestResult::Await100(_)) {
+                return Err(v("Await100 entered although the request on the wire carries no Expect: 100-continue"));
+            }
+            return Ok(Outcome::FollowedWithoutInheritedExpect);
+        }
+    }
 
     // ------------------------------------------------------------------ Await100 / SendBody
     let mut consumed = 0usize; // offset into `stream`
